@@ -661,6 +661,454 @@ example : (rrun true (fun _ => .upstream) (RState.init (fun _ => .upstream))
 end Routing
 
 
+/-! ## Round 4: the routing model refines the Dest-level model -/
+
+section Refinement
+open MitmVerif.C24.Route
+
+/-- the Dest-level step, seen from one client connection: new phase, "added to `tunneled`", kind, writes -/
+def dstep (auth : Bool) (m : Mode) (tn : Bool) : Phase → Ev → Phase × Bool × Kind × List Write
+  | .closed, _ => (.closed, false, .ignored, [])
+  | .outer, .drop => (.outer, false, .noop, [])
+  | .tunnel _, .drop => (.tunnel false, false, .noop, [])
+  | .outer, .connect =>
+    if m.isHttpProxy then (.tunnel (m == Mode.regular), true, .tunnel, []) else (.closed, false, .invalid, [])
+  | .outer, .req https =>
+    match m with
+    | .regular => (.outer, false, .response, [⟨.originDirect, .request, https, requestheaders auth m (!https) tn⟩])
+    | .upstream =>
+      if https then
+        (.outer, false, .response, [⟨.proxy, .connect, false, connectUpstream auth⟩,
+                                    ⟨.originViaTunnel, .request, true, requestheaders auth m false tn⟩])
+      else (.outer, false, .response, [⟨.proxy, .request, false, requestheaders auth m true tn⟩])
+    | _ => (.outer, false, .response, [⟨transparentDest m, .request, false, requestheaders auth m true tn⟩])
+  | .tunnel _, .connect => (.closed, false, .invalid, [])
+  | .tunnel opened, .req _ =>
+    match m with
+    | .upstream =>
+      (.tunnel true, false, .response,
+        (if opened then [] else [⟨.proxy, .connect, false, connectUpstream auth⟩]) ++
+          [⟨.originViaTunnel, .request, false, requestheaders auth m true tn⟩])
+    | _ => (.tunnel opened, false, .response, [⟨.originDirect, .request, false, requestheaders auth m true tn⟩])
+
+private theorem step_phase_self (auth : Bool) (m : Mode) (σ : State) (cid : Nat) (e : Ev) :
+    (step auth m σ cid e).1.phase cid = (dstep auth m (σ.tunneled.contains cid) (σ.phase cid) e).1 := by
+  unfold step stepWith dstep
+  cases hp : σ.phase cid <;> cases e <;> cases m <;> (try cases ‹Bool›) <;> simp [State.setPhase, Mode.isHttpProxy, hp]
+
+private theorem step_phase_other (auth : Bool) (m : Mode) (σ : State) (cid c : Nat) (e : Ev) (hc : c ≠ cid) :
+    (step auth m σ cid e).1.phase c = σ.phase c := by
+  unfold step stepWith
+  cases hp : σ.phase cid <;> cases e <;> cases m <;> (try cases ‹Bool›) <;> simp [State.setPhase, Mode.isHttpProxy, hc, hp]
+
+private theorem step_tunneled (auth : Bool) (m : Mode) (σ : State) (cid : Nat) (e : Ev) :
+    (step auth m σ cid e).1.tunneled =
+      if (dstep auth m (σ.tunneled.contains cid) (σ.phase cid) e).2.1 then cid :: σ.tunneled else σ.tunneled := by
+  unfold step stepWith dstep
+  cases hp : σ.phase cid <;> cases e <;> cases m <;> (try cases ‹Bool›) <;> simp [State.setPhase, Mode.isHttpProxy, hp]
+
+private theorem step_out (auth : Bool) (m : Mode) (σ : State) (cid : Nat) (e : Ev) :
+    (step auth m σ cid e).2 = (dstep auth m (σ.tunneled.contains cid) (σ.phase cid) e).2.2 := by
+  unfold step stepWith dstep
+  cases hp : σ.phase cid <;> cases e <;> cases m <;> (try cases ‹Bool›) <;> simp [State.setPhase, Mode.isHttpProxy, hp]
+
+/-- the routing model's event, forgetting the names the Dest-level model does not look at -/
+def evOf : REv → Ev
+  | .req _ _ https => .req https
+  | .connect _ _ => .connect
+  | .drop => .drop
+
+/-- the routing model's output, read at the Dest level: who reads each write is DERIVED from the connection
+    parameters (`partyOf`), "inside TLS" from the connection's tls flag -/
+def eraseOut (m : Mode) (o : ROut) : Kind × List Write :=
+  (o.kind, match o.conn with
+    | some c => o.writes.map (fun w => ⟨partyOf m c w, w.form, c.tls && w.form == .request, w.cred⟩)
+    | none => [])
+
+/-- same kind; same writes, except that the Dest-level model writes a CONNECT to the proxy for every https request
+    where the routing model reuses an established CONNECT-first connection -/
+def Refines (d r : Kind × List Write) : Prop :=
+  d.1 = r.1 ∧ (d.2 = r.2 ∨ ∃ cred, d.2 = ⟨.proxy, .connect, false, cred⟩ :: r.2)
+
+/-- simulation relation between the two models' views of one client connection -/
+structure RelC (m : Mode) (p : Phase) (s : CState) : Prop where
+  bound : ∀ i ∈ s.connected, i < s.used
+  closed : p = .closed → s.phase = .closed
+  outer : p = .outer → s.phase = .outer ∧
+    (m.isHttpProxy = true → ∀ c ∈ s.pool, c.via = (m == Mode.upstream) ∧ c.sendConnect = (c.via && c.tls) ∧
+        (c.sendConnect = true → c.idx ∈ s.connected)) ∧
+    (m.isHttpProxy = false → ∃ c0, s.ctx = some c0 ∧ c0.via = false ∧ c0.sendConnect = false ∧ c0.tls = false ∧
+        (m = .reverse → c0.host = 3))
+  tunnel : ∀ o, p = .tunnel o → s.phase = .tunnel ∧ m.isHttpProxy = true ∧
+    ∃ c0, s.ctx = some c0 ∧ c0.tls = false ∧ c0.via = (m == Mode.upstream) ∧ c0.sendConnect = (m == Mode.upstream) ∧
+      (s.ctxUsed = true → c0.idx < s.used) ∧
+      (m = .upstream → o = (s.ctxUsed && s.connected.contains c0.idx))
+
+private theorem relc_init (m : Mode) : RelC m .outer (CState.init m) := by
+  refine ⟨by simp [CState.init], by simp, ?_, by simp⟩
+  intro _
+  refine ⟨rfl, by simp [CState.init], ?_⟩
+  intro hm
+  cases m <;> simp_all [Mode.isHttpProxy, CState.init, initCtx]
+
+private theorem rstep_refines (auth : Bool) (m : Mode) (tn : Bool) (p : Phase) (s : CState) (e : REv)
+    (h : RelC m p s) :
+    RelC m (dstep auth m tn p (evOf e)).1 (rstep auth m tn s e).1 ∧
+    (dstep auth m tn p (evOf e)).2.1 = ((rstep auth m tn s e).2.kind == Kind.tunnel) ∧
+    Refines (dstep auth m tn p (evOf e)).2.2 (eraseOut m (rstep auth m tn s e).2) := by
+  cases hp : p with
+  | closed =>
+    have hs : s.phase = .closed := h.closed hp
+    have hr : rstep auth m tn s e = (s, { kind := .ignored }) := by unfold rstep; simp [hs]
+    rw [hr]
+    refine ⟨?_, by simp [dstep], by simp [dstep, Refines, eraseOut]⟩
+    simpa [dstep, hp] using h
+  | outer =>
+    obtain ⟨hs, hpool, hctx⟩ := h.outer hp
+    cases e with
+    | drop =>
+      have hr : rstep auth m tn s .drop = ({ s with pool := [], ctxUsed := false }, { kind := .noop }) := by
+        unfold rstep; simp [hs]
+      rw [hr]
+      refine ⟨?_, by simp [dstep, evOf], by simp [dstep, evOf, Refines, eraseOut]⟩
+      simp only [dstep, evOf]
+      exact ⟨h.bound, by simp, fun _ => ⟨hs, by simp, hctx⟩, by simp⟩
+    | connect host port =>
+      by_cases hm : m.isHttpProxy = true
+      · have hr : rstep auth m tn s (.connect host port) =
+            ({ phase := .tunnel, ctx := some ⟨host, port, false, none, m == Mode.upstream, m == Mode.upstream, 0⟩,
+               ctxUsed := false, pool := [], connected := s.connected, used := s.used }, { kind := .tunnel }) := by
+          unfold rstep; simp [hs, hm]
+        rw [hr]
+        refine ⟨?_, by simp [dstep, evOf, hm], by simp [dstep, evOf, hm, Refines, eraseOut]⟩
+        simp only [dstep, evOf, hm, if_true]
+        refine ⟨h.bound, by simp, by simp, ?_⟩
+        intro o ho
+        refine ⟨rfl, hm, _, rfl, rfl, rfl, rfl, by simp, ?_⟩
+        intro hu; subst hu; simp at ho; simp [← ho]
+      · have hr : rstep auth m tn s (.connect host port) = ({ s with phase := .closed }, { kind := .invalid }) := by
+          unfold rstep; simp [hs, hm]
+        rw [hr]
+        refine ⟨?_, by simp [dstep, evOf, hm], by simp [dstep, evOf, hm, Refines, eraseOut]⟩
+        simp only [dstep, evOf, hm, Bool.false_eq_true, if_false]
+        exact ⟨h.bound, by simp, by simp, by simp⟩
+    | req host port https =>
+      by_cases hm : m.isHttpProxy = true
+      · have hpool' := hpool hm
+        cases hf : s.pool.find? (fun c => c.matches host port https (m == Mode.upstream)) with
+        | some c =>
+          have hr : rstep auth m tn s (.req host port https) =
+              (if c.sendConnect then { s with connected := c.idx :: s.connected } else s,
+               { kind := .response, conn := some c, fresh := false,
+                 writes := writesOn auth m c (s.connected.contains c.idx) (!https) tn }) := by
+            unfold rstep; simp [hs, hm, hf]
+          rw [hr]
+          have hmem := List.mem_of_find?_eq_some hf
+          have hmatch := List.find?_some hf
+          simp only [UpConn.matches, Bool.and_eq_true, beq_iff_eq] at hmatch
+          obtain ⟨hv, hsc, hcon⟩ := hpool' c hmem
+          refine ⟨?_, ?_, ?_⟩
+          · -- relation
+            have hd : (dstep auth m tn .outer (evOf (.req host port https))).1 = .outer := by
+              cases m <;> cases https <;> simp [dstep, evOf]
+            rw [hd]
+            by_cases hsc' : c.sendConnect = true
+            · simp only [hsc', if_true]
+              refine ⟨?_, by simp, ?_, by simp⟩
+              · intro i hi
+                simp only [List.mem_cons] at hi
+                rcases hi with rfl | hi
+                · exact h.bound _ (hcon hsc')
+                · exact h.bound i hi
+              · intro _
+                refine ⟨hs, ?_, fun hm' => by simp [hm] at hm'⟩
+                intro _ c' hc'
+                obtain ⟨a, b, d⟩ := hpool' c' hc'
+                exact ⟨a, b, fun hh => List.mem_cons_of_mem _ (d hh)⟩
+            · simp only [hsc', Bool.false_eq_true, if_false]
+              exact ⟨h.bound, by simp, fun _ => ⟨hs, fun _ => hpool', fun hm' => by simp [hm] at hm'⟩, by simp⟩
+          · cases m <;> cases https <;> simp [dstep, evOf]
+          · have hcd : c.sendConnect = true → s.connected.contains c.idx = true := by
+              intro hh; simpa using hcon hh
+            cases m <;> cases https <;> cases auth <;> cases tn <;>
+              simp_all [dstep, evOf, Refines, eraseOut, writesOn, partyOf, requestheaders, connectUpstream,
+                Mode.isHttpProxy]
+        | none =>
+          have hr : rstep auth m tn s (.req host port https) =
+              ({ s with pool := s.pool ++ [⟨host, port, https, if https then some host else none, m == Mode.upstream,
+                                            (m == Mode.upstream) && https, s.used⟩],
+                        used := s.used + 1,
+                        connected := if ((m == Mode.upstream) && https) then s.used :: s.connected else s.connected },
+               { kind := .response,
+                 conn := some ⟨host, port, https, if https then some host else none, m == Mode.upstream,
+                               (m == Mode.upstream) && https, s.used⟩,
+                 fresh := true,
+                 writes := writesOn auth m ⟨host, port, https, if https then some host else none, m == Mode.upstream,
+                               (m == Mode.upstream) && https, s.used⟩ false (!https) tn }) := by
+            unfold rstep; simp [hs, hm, hf]
+          rw [hr]
+          refine ⟨?_, ?_, ?_⟩
+          · have hd : (dstep auth m tn .outer (evOf (.req host port https))).1 = .outer := by
+              cases m <;> cases https <;> simp [dstep, evOf]
+            rw [hd]
+            refine ⟨?_, by simp, ?_, by simp⟩
+            · intro i hi
+              simp only at hi
+              split at hi
+              · simp only [List.mem_cons] at hi
+                rcases hi with rfl | hi
+                · exact Nat.lt_succ_self _
+                · exact Nat.lt_succ_of_lt (h.bound i hi)
+              · exact Nat.lt_succ_of_lt (h.bound i hi)
+            · intro _
+              refine ⟨hs, ?_, fun hm' => by simp [hm] at hm'⟩
+              intro _ c' hc'
+              simp only [List.mem_append, List.mem_singleton] at hc'
+              rcases hc' with hc' | rfl
+              · obtain ⟨a, b, d⟩ := hpool' c' hc'
+                refine ⟨a, b, fun hh => ?_⟩
+                have := d hh
+                simp only
+                split
+                · exact List.mem_cons_of_mem _ this
+                · exact this
+              · refine ⟨rfl, rfl, ?_⟩
+                intro hh
+                simp only at hh
+                simp [hh]
+          · cases m <;> cases https <;> simp [dstep, evOf]
+          · cases m <;> cases https <;> cases auth <;> cases tn <;>
+              simp_all [dstep, evOf, Refines, eraseOut, writesOn, partyOf, requestheaders, connectUpstream,
+                Mode.isHttpProxy]
+      · have hmf : m.isHttpProxy = false := by simpa using hm
+        obtain ⟨c0, hc0, hv0, hsc0, htls0, hrev⟩ := hctx hmf
+        have hr : rstep auth m tn s (.req host port https) =
+            ({ s with ctx := some (if s.ctxUsed then c0 else { c0 with idx := s.used }), ctxUsed := true,
+                      used := if s.ctxUsed then s.used else s.used + 1,
+                      connected := if (if s.ctxUsed then c0 else { c0 with idx := s.used }).sendConnect
+                        then (if s.ctxUsed then c0 else { c0 with idx := s.used }).idx :: s.connected else s.connected },
+             { kind := .response, conn := some (if s.ctxUsed then c0 else { c0 with idx := s.used }),
+               fresh := !s.ctxUsed,
+               writes := writesOn auth m (if s.ctxUsed then c0 else { c0 with idx := s.used })
+                 (s.connected.contains (if s.ctxUsed then c0 else { c0 with idx := s.used }).idx) true tn }) := by
+          unfold rstep; simp [hs, hmf, hc0]
+        rw [hr]
+        have hsc1 : (if s.ctxUsed then c0 else { c0 with idx := s.used }).sendConnect = false := by
+          split <;> simp [hsc0]
+        refine ⟨?_, ?_, ?_⟩
+        · have hd : (dstep auth m tn .outer (evOf (.req host port https))).1 = .outer := by
+            cases m <;> cases https <;> simp [dstep, evOf]
+          rw [hd]
+          refine ⟨?_, by simp, ?_, by simp⟩
+          · intro i hi
+            simp only [hsc1, Bool.false_eq_true, if_false] at hi
+            have := h.bound i hi
+            simp only
+            split <;> omega
+          · intro _
+            refine ⟨hs, fun hm' => by simp [hmf] at hm', ?_⟩
+            intro _
+            refine ⟨_, rfl, ?_, ?_, ?_, ?_⟩ <;> (split <;> simp_all)
+        · cases m <;> cases https <;> simp [dstep, evOf]
+        · cases m <;> cases https <;> cases auth <;> cases tn <;> cases hu : s.ctxUsed <;>
+            simp_all [dstep, evOf, Refines, eraseOut, writesOn, partyOf, requestheaders, connectUpstream,
+              Mode.isHttpProxy, transparentDest]
+  | tunnel o =>
+    obtain ⟨hs, hm, c0, hc0, htls, hvia, hsc, hidx, hopen⟩ := h.tunnel o hp
+    cases e with
+    | drop =>
+      have hr : rstep auth m tn s .drop = ({ s with pool := [], ctxUsed := false }, { kind := .noop }) := by
+        unfold rstep; simp [hs]
+      rw [hr]
+      refine ⟨?_, by simp [dstep, evOf], by simp [dstep, evOf, Refines, eraseOut]⟩
+      simp only [dstep, evOf]
+      refine ⟨h.bound, by simp, by simp, ?_⟩
+      intro o' ho'
+      exact ⟨hs, hm, c0, hc0, htls, hvia, hsc, by simp, by intro _; simp at ho'; subst ho'; simp⟩
+    | connect host port =>
+      have hr : rstep auth m tn s (.connect host port) = ({ s with phase := .closed }, { kind := .invalid }) := by
+        unfold rstep; simp [hs]
+      rw [hr]
+      refine ⟨?_, by simp [dstep, evOf], by simp [dstep, evOf, Refines, eraseOut]⟩
+      simp only [dstep, evOf]
+      exact ⟨h.bound, by simp, by simp, by simp⟩
+    | req host port https =>
+      have hne : ((RPhase.tunnel == RPhase.outer) = false) := by decide
+      have hr : rstep auth m tn s (.req host port https) =
+          ({ s with ctx := some (if s.ctxUsed then c0 else { c0 with idx := s.used }), ctxUsed := true,
+                    used := if s.ctxUsed then s.used else s.used + 1,
+                    connected := if (if s.ctxUsed then c0 else { c0 with idx := s.used }).sendConnect
+                      then (if s.ctxUsed then c0 else { c0 with idx := s.used }).idx :: s.connected else s.connected },
+           { kind := .response, conn := some (if s.ctxUsed then c0 else { c0 with idx := s.used }),
+             fresh := !s.ctxUsed,
+             writes := writesOn auth m (if s.ctxUsed then c0 else { c0 with idx := s.used })
+               (s.connected.contains (if s.ctxUsed then c0 else { c0 with idx := s.used }).idx) true tn }) := by
+        unfold rstep; simp [hs, hm, hne, hc0]
+      rw [hr]
+      have hfresh : s.connected.contains s.used = false := by
+        cases hcn : s.connected.contains s.used with
+        | false => rfl
+        | true =>
+          have := h.bound s.used (by simpa using hcn)
+          omega
+      have hmodes : m = .regular ∨ m = .upstream := by
+        cases m <;> simp_all [Mode.isHttpProxy]
+      cases hu : s.ctxUsed with
+      | true =>
+        have hi := hidx hu
+        simp only [hu, if_true]
+        rcases hmodes with rfl | rfl
+        · -- regular: nothing but the request, on the tunnel's own connection
+          have hv : c0.via = false := by rw [hvia]; rfl
+          have hsc' : c0.sendConnect = false := by rw [hsc]; rfl
+          refine ⟨?_, by simp [dstep, evOf], ?_⟩
+          · simp only [dstep, evOf, hsc', Bool.false_eq_true, if_false]
+            refine ⟨h.bound, by simp, by simp, ?_⟩
+            intro o' _
+            exact ⟨hs, rfl, c0, rfl, htls, by first | rfl | (rw [hv]; rfl), by first | rfl | (rw [hsc']; rfl), fun _ => hi, by simp⟩
+          · simp [dstep, evOf, Refines, eraseOut, writesOn, partyOf, hv, hsc', htls]
+        · -- upstream: CONNECT first unless this tunnel connection has sent it already
+          have hv : c0.via = true := by rw [hvia]; rfl
+          have hsc' : c0.sendConnect = true := by rw [hsc]; rfl
+          have ho : o = s.connected.contains c0.idx := by simpa [hu] using hopen rfl
+          refine ⟨?_, by simp [dstep, evOf], ?_⟩
+          · simp only [dstep, evOf, hsc', if_true]
+            refine ⟨?_, by simp, by simp, ?_⟩
+            · intro i hi'
+              simp only [List.mem_cons] at hi'
+              rcases hi' with rfl | hi'
+              · exact hi
+              · exact h.bound i hi'
+            · intro o' ho'
+              refine ⟨hs, rfl, c0, rfl, htls, by first | rfl | (rw [hv]; rfl), by first | rfl | (rw [hsc']; rfl), fun _ => hi, ?_⟩
+              intro _; simp at ho'; simp [← ho']
+          · by_cases hmem : c0.idx ∈ s.connected
+            · have hct : s.connected.contains c0.idx = true := by simpa using hmem
+              refine ⟨by simp [dstep, evOf, eraseOut], Or.inl ?_⟩
+              simp [dstep, evOf, eraseOut, writesOn, partyOf, hv, hsc', htls, ho, hct, hmem]
+            · have hct : s.connected.contains c0.idx = false := by simpa using hmem
+              refine ⟨by simp [dstep, evOf, eraseOut], Or.inl ?_⟩
+              simp [dstep, evOf, eraseOut, writesOn, partyOf, hv, hsc', htls, ho, hct, hmem]
+      | false =>
+        simp only [hu, Bool.false_eq_true, if_false]
+        rcases hmodes with rfl | rfl
+        · have hv : c0.via = false := by rw [hvia]; rfl
+          have hsc' : c0.sendConnect = false := by rw [hsc]; rfl
+          refine ⟨?_, by simp [dstep, evOf], ?_⟩
+          · simp only [dstep, evOf, hsc', Bool.false_eq_true, if_false]
+            refine ⟨fun i hi' => Nat.lt_succ_of_lt (h.bound i hi'), by simp, by simp, ?_⟩
+            intro o' _
+            exact ⟨hs, rfl, _, rfl, htls, by first | rfl | (rw [hv]; rfl), by first | rfl | (rw [hsc']; rfl), fun _ => Nat.lt_succ_self _, by simp⟩
+          · simp [dstep, evOf, Refines, eraseOut, writesOn, partyOf, hv, hsc', htls]
+        · have hv : c0.via = true := by rw [hvia]; rfl
+          have hsc' : c0.sendConnect = true := by rw [hsc]; rfl
+          have ho : o = false := by simpa [hu] using hopen rfl
+          refine ⟨?_, by simp [dstep, evOf], ?_⟩
+          · simp only [dstep, evOf, hsc', if_true]
+            refine ⟨?_, by simp, by simp, ?_⟩
+            · intro i hi'
+              simp only [List.mem_cons] at hi'
+              rcases hi' with rfl | hi'
+              · exact Nat.lt_succ_self _
+              · exact Nat.lt_succ_of_lt (h.bound i hi')
+            · intro o' ho'
+              refine ⟨hs, rfl, _, rfl, htls, by first | rfl | (rw [hv]; rfl), by first | rfl | (rw [hsc']; rfl), fun _ => Nat.lt_succ_self _, ?_⟩
+              intro _; simp at ho'; simp [← ho']
+          · have hnm : s.used ∉ s.connected := by
+              intro hmem; have := h.bound _ hmem; omega
+            refine ⟨by simp [dstep, evOf, eraseOut], Or.inl ?_⟩
+            simp [dstep, evOf, eraseOut, writesOn, partyOf, hv, hsc', htls, ho, hfresh, hnm]
+
+/-- the two lists have the same length and are related position by position -/
+inductive AllPairs {α β : Type} (R : α → β → Prop) : List α → List β → Prop
+  | nil : AllPairs R [] []
+  | cons {a b as bs} : R a b → AllPairs R as bs → AllPairs R (a :: as) (b :: bs)
+
+/-- **The routing model refines the Dest-level model** — over every history (any number of client connections, option
+    changes, server disconnects): fed the same events, both models answer every event with the same kind, and the
+    routing model's writes — read at the Dest level through the connection parameters it PREDICTS (`partyOf`: via,
+    CONNECT-first, address; tls flag) — are exactly the Dest-level model's writes, except that the Dest-level model
+    writes a CONNECT to the proxy for every https request where the routing model reuses an established connection.
+    (Simulation: `tunneled` equal, phases related by `RelC`.) -/
+theorem route_refines_dest (modes : Nat → Mode) :
+    ∀ (es : List (Nat × Bool × REv)) (σ : State) (ρ : RState),
+      σ.tunneled = ρ.tunneled → (∀ c, RelC (modes c) (σ.phase c) (ρ.conns c)) →
+      AllPairs (fun d r => d.1 = r.1 ∧ Refines d.2 (eraseOut (modes r.1) r.2))
+        (runVar modes σ (es.map (fun x => (x.1, x.2.1, evOf x.2.2)))) (rrunVar modes ρ es) := by
+  intro es
+  induction es with
+  | nil => intro σ ρ _ _; exact AllPairs.nil
+  | cons x rest ih =>
+    intro σ ρ ht hrel
+    obtain ⟨cid, auth, e⟩ := x
+    simp only [List.map_cons, runVar, rrunVar]
+    have hR := rstep_refines auth (modes cid) (ρ.tunneled.contains cid) (σ.phase cid) (ρ.conns cid) e (hrel cid)
+    have htn : σ.tunneled.contains cid = ρ.tunneled.contains cid := by rw [ht]
+    refine AllPairs.cons ⟨rfl, ?_⟩ ?_
+    · have := step_out auth (modes cid) σ cid (evOf e)
+      rw [htn] at this
+      show Refines (step auth (modes cid) σ cid (evOf e)).2 _
+      rw [this]; exact hR.2.2
+    · apply ih
+      · rw [step_tunneled, htn, hR.2.1]
+        by_cases hk : (rstep auth (modes cid) (ρ.tunneled.contains cid) (ρ.conns cid) e).2.kind = Kind.tunnel
+        · simp [hk, ht]
+        · have : ((rstep auth (modes cid) (ρ.tunneled.contains cid) (ρ.conns cid) e).2.kind == Kind.tunnel) = false := by
+            simpa using hk
+          simp [hk, this, ht]
+      · intro c
+        by_cases hc : c = cid
+        · subst hc
+          rw [step_phase_self, htn]
+          simpa using hR.1
+        · rw [step_phase_other _ _ _ _ _ _ hc]
+          simpa [hc] using hrel c
+
+/-- … from the start of the proxy -/
+theorem route_refines_dest_from_start (modes : Nat → Mode) (es : List (Nat × Bool × REv)) :
+    AllPairs (fun d r => d.1 = r.1 ∧ Refines d.2 (eraseOut (modes r.1) r.2))
+      (runVar modes State.init (es.map (fun x => (x.1, x.2.1, evOf x.2.2))))
+      (rrunVar modes (RState.init modes) es) :=
+  route_refines_dest modes es State.init (RState.init modes) rfl (fun c => by
+    simpa [State.init, RState.init] using relc_init (modes c))
+
+private theorem allPairs_right {α β : Type} {R : α → β → Prop} {l1 : List α} {l2 : List β} (h : AllPairs R l1 l2) :
+    ∀ b ∈ l2, ∃ a ∈ l1, R a b := by
+  induction h with
+  | nil => intro b hb; simp at hb
+  | cons hab _ ih =>
+    intro b hb
+    simp only [List.mem_cons] at hb
+    rcases hb with rfl | hb
+    · exact ⟨_, by simp, hab⟩
+    · obtain ⟨a, ha, hr⟩ := ih b hb
+      exact ⟨a, by simp [ha], hr⟩
+
+/-- **C24 for the routing model as a corollary of the refinement**: every write of the routing model that carries the
+    credential — read at the Dest level through its predicted connection parameters — is one of the three allowed
+    kinds (`Allowed`: mitmproxy's CONNECT to the proxy, a direct plain request to the proxy, a request to the reverse
+    target), because it is a write of the Dest-level model, for which `creds_confined_under_option_changes` holds. -/
+theorem route_creds_allowed_via_refinement (modes : Nat → Mode) (es : List (Nat × Bool × REv))
+    (cid : Nat) (o : ROut) (hx : (cid, o) ∈ rrunVar modes (RState.init modes) es)
+    (w : Write) (hw : w ∈ (eraseOut (modes cid) o).2) (hc : w.cred ≠ none) : Allowed (modes cid) w := by
+  obtain ⟨d, hd, hcid, hkind, hwr⟩ := allPairs_right (route_refines_dest_from_start modes es) (cid, o) hx
+  obtain ⟨c', k, ws⟩ := d
+  simp only at hcid hkind hwr
+  subst hcid
+  have hmem : w ∈ ws := by
+    rcases hwr with h | ⟨cred, h⟩
+    · rw [h]; exact hw
+    · rw [h]; exact List.mem_cons_of_mem _ hw
+  exact creds_confined_under_option_changes_from_start modes _ c' k ws hd w hmem hc
+
+-- the one place where the two differ: the second https request to the same origin reuses the TLS connection
+example : (rrunVar (fun _ => .upstream) (RState.init (fun _ => .upstream))
+      [(0, true, .req 7 443 true), (0, true, .req 7 443 true)]).map (fun x => (eraseOut .upstream x.2).2.length) = [2, 1] ∧
+    (runVar (fun _ => .upstream) State.init [(0, true, .req true), (0, true, .req true)]).map (fun x => x.2.2.length) = [2, 2] := by
+  decide +kernel
+
+end Refinement
+
 /-! ### the order of the default addon chain -/
 
 /-- position of an addon in `mitmproxy.addons.default_addons()` (regenerated from the source on every run) -/
